@@ -31,6 +31,8 @@ CONFIGS = {
     "align_b": {"rule": {"global": {"compact_alignment": "no", "blank_line_ends_group": "yes", "comment_line_ends_group": "yes", "separate_generic_port_alignment": "yes", "if_control_statements_ends_group": "no", "case_control_statements_ends_group": "yes", "generate_statements_ends_group": "no", "loop_control_statements_ends_group": "no"}}},
     "smart_tabs": {"rule": {"global": {"indent_style": "smart_tabs"}}},
     # skip lists (the configuration is the default one; the list is passed to rule_list.fix by the runner)
+    # the use-clause indent options with different values (docs/configuring_use_clause_indenting.rst)
+    "use_indent": {"indent": {"tokens": {"use_clause": {"keyword": {"token_after_library_clause": "+1", "token_if_no_matching_library_clause": "current"}}}}},
     "skip1": {},
     "caseonly": {},
 }
@@ -142,7 +144,14 @@ def load(path, cfgname):
     lines = vf.utils.read_vhdlfile(path)[0]
     cla = vf.command_line_args()
     cla.style = None
-    cfg = CONFIGS[cfgname]
+    if cfgname.startswith("doc:"):
+        from bounded import docconfigs
+
+        import copy
+
+        cfg = copy.deepcopy(docconfigs.harvest(os.environ.get("VSG_REPO", "/repo"))[cfgname])
+    else:
+        cfg = CONFIGS[cfgname]
     if isinstance(cfg, str):
         cla.style = cfg
         cfg = {}
@@ -158,6 +167,10 @@ def load(path, cfgname):
                         oConfig.dConfig["rule"][kk] = vv
             else:
                 oConfig.dConfig[k] = v
+        if "severity" in cfg:
+            oConfig.severity_list = severity.create_list(oConfig.dConfig)
+        if "indent" in cfg:
+            oConfig.dIndent = config.read_indent_configuration(oConfig.dConfig)
     try:
         oFile = vhdlFile.vhdlFile(lines, sFilename=path, configuration=oConfig)
     except ClassifyError:
